@@ -493,7 +493,18 @@ class Externals:
         obj = t.arg(0)
         self.note('threading.Event / asyncio.Event: set() raises the flag, clear() lowers it, wait(timeout) returns True iff the flag is (or becomes) set, False on time-out')
 
+        env = getattr(self, 'event_env', None)
+
         def gen():
+            if env is not None and op != 'wait':
+                env(eng, ctx, 'pre', op, obj)
+                for c_, r_ in gen0():
+                    env(eng, c_, 'post', op, obj)
+                    yield c_, r_
+            else:
+                yield from gen0()
+
+        def gen0():
             evs = ctx.st.get('g', 'events')
             if op == 'set':
                 ctx.st = ctx.st.set('g', 'events', evs.with_child(('k', obj), SV(Leaf('B'), {'': z3.BoolVal(True)})))
@@ -965,6 +976,8 @@ def _wait_for(eng, ctx, args, kwargs):
             tt = tmo.t if tmo.sort == 'R' else z3.ToReal(tmo.t)
             lg = ctx.st.get('g', 'waits')
             ctx.st = ctx.st.set('g', 'waits', lg.log_append({'ev': obj, 'timeout': tt, 'woke': r}))
+        if isinstance(tmo, S) and tmo.sort == 'V':
+            ctx.assume(z3.Implies(tmo.t == NONE, x.t))       # no timeout: wait_for returns only when the wait does
         for c, woke in eng.branch(ctx, x.t):
             if woke:
                 yield c, S(z3.BoolVal(True))
